@@ -17,7 +17,7 @@ Definition w_ident : mdef :=
 Definition w_noisy : mdef :=
   {| m_name := 11; m_static := false; m_params := [12%N];
      m_body := BCode [SPrint (EInt 88); SReturn (EVar 12)] |}.
-Definition w_classC (ms : list mdef) : cdef := {| c_name := 1; c_methods := w_init :: ms |}.
+Definition w_classC (ms : list mdef) : cdef := {| c_name := 1; c_base := None; c_methods := w_init :: ms |}.
 
 (* ident(a).x += 1 *)
 Definition w_aug_effect : prog :=
@@ -45,7 +45,7 @@ Definition w_inc : mdef :=
                       SWrite true (EVar 5) 2 (EBin Mul (EAttr true (EVar 5) 2) (EInt 2));
                       SReturn (EAttr true (EVar 5) 2)] |}.
 Definition w_classD : cdef :=
-  {| c_name := 16; c_methods := [ {| m_name := 0; m_static := false; m_params := [5%N; 7%N];
+  {| c_name := 16; c_base := None; c_methods := [ {| m_name := 0; m_static := false; m_params := [5%N; 7%N];
        m_body := BCode [SWrite false (EVar 5) 17 (ENew 1 [EVar 7]); SWrite false (EVar 5) 2 (EInt 40)] |} ] |}.
 Definition w_good : prog :=
   {| p_classes := [w_classC [w_inc]; w_classD]; p_funcs := [w_ident];
@@ -62,3 +62,11 @@ Definition w_good : prog :=
                 SPrint (EAttr true (ECall 9 [EVar 8]) 2);
                 SPrint (EAttr true (ENew 1 [EInt 9]) 2);
                 SPrint (EAttr false (EVar 18) 2)] |}.
+
+(* class B (19) defines get_x; C inherits from it: EncapsulateField refuses the default accessor names *)
+Definition w_inherit : prog :=
+  {| p_classes := [ {| c_name := 19; c_base := None;
+                       c_methods := [ {| m_name := 3; m_static := false; m_params := [5%N];
+                                         m_body := BCode [SReturn (EBin Mul (EAttr false (EVar 5) 2) (EInt 10))] |} ] |};
+                    {| c_name := 1; c_base := Some 19%N; c_methods := [w_init] |} ];
+     p_funcs := []; p_main := [] |}.
